@@ -386,6 +386,47 @@ def judge_text_variants(ctx, text, auto, a):
                 return
 
 
+SWAP_FIXTURES = [
+    '2000-01-01 open Assets:A\n\n; section one\n\n; section two\n\n2000-01-02 close Assets:A\n',
+    '; head one\n\n; head two\n\n2000-01-01 open Assets:A\n\n; mid\n\n; mid too\n\n; and a third\n\n2000-01-02 close Assets:A\n',
+]
+
+
+def judge_owner_swap(ctx, text, auto):
+    """Two documents with the same tokens, the same number of owned comments, but DIFFERENT comments owned (document A gives
+    up comment i of a field, document B comment j): which model owns a comment is structure, so A != B."""
+    try:
+        probe = parse(text, auto)
+    except Exception:   # noqa: BLE001
+        return
+    for p, m in tree_nodes(probe):
+        if isinstance(m, (internal.Repeated, models.NumberAddExpr, models.NumberMulExpr, base.RawTokenModel)):
+            continue
+        for raw, (f, wc) in intro.api_props(type(m))['rep'].items():
+            rp = m.__dict__.get(f)
+            if not wc or rp is None:
+                continue
+            cm = [i for i, x in enumerate(rp.items) if isinstance(x, models.BlockComment)]
+            pairs = [(i, j) for i in cm for j in cm if i < j and rp.items[i].raw_text != rp.items[j].raw_text]
+            for i, j in pairs[:3]:
+                a, b = parse(text, auto), parse(text, auto)
+                try:
+                    ma, mb = by_path(a, p), by_path(b, p)
+                    getattr(ma, raw).unclaim_interleaving_comments([ma.__dict__[f].items[i]])
+                    getattr(mb, raw).unclaim_interleaving_comments([mb.__dict__[f].items[j]])
+                except Exception:   # noqa: BLE001 - the edit itself failed: not C20's business
+                    continue
+                ctx.case(('owner-swap', type(m).__name__, raw))
+                ctx.count('owner-swap')
+                rep = {'text': text, 'auto_claim': auto, 'site': None, 'owner_swap': [list(p), raw, f, i, j]}
+                for x, y, lvl in ((a, b, 'document'), (ma, mb, 'holder'), (ma.__dict__[f], mb.__dict__[f], 'field')):
+                    e1, e2 = safe_eq(x, y), safe_eq(y, x)
+                    if e1 is not False or e2 is not False:
+                        ctx.oracle_fail(f'C20:equal-although-another-comment-is-owned:{lvl}', f'{type(m).__name__}.{raw}: A released entry {i}, B released entry {j} '
+                                        f'({rp.items[i].raw_text!r} / {rp.items[j].raw_text!r}); A == B -> {e1}, B == A -> {e2} at the {lvl} level', rep)
+                        break
+
+
 def judge_hash_after_edit(ctx, root, replay):
     """Token == is consistent with hash also after in-place edits: hash a token, change it through its setters, then
     compare it (and its hash) with an independently built token of the same RULE and text."""
@@ -448,6 +489,8 @@ def run(ctx, ndocs=None, lockstep=True):
     per_doc = ctx.scale(30, 80)
     lockstep = lockstep and ctx.extra.get('model_available', True)
     judge = Judge(ctx, lockstep)
+    for fx in SWAP_FIXTURES:
+        judge_owner_swap(ctx, fx, True)
     corpus = list(docs.corpus('File'))
     for _ in range(ndocs):
         text = r.choice(corpus) if corpus and r.random() < 0.3 else docs.gen_file(r, r.choice((1, 2, 3, 5)))
@@ -526,6 +569,7 @@ def _one_doc(ctx, r, judge, text, auto, lf, per_doc, lockstep):
         for s in chosen:
             one_site(ctx, judge, text, auto, a, da, b0, s, lock=r.random() < 0.35)
         judge_hash_after_edit(ctx, parse(text, auto), base_replay)
+        judge_owner_swap(ctx, text, auto)
         if len(judge.lines) > 1500:
             judge.flush()
 
@@ -554,6 +598,9 @@ def _replay(ctx, rep, text, auto, before):
         by_path(b0, p).indent_by = ib
     judge = Judge(ctx, False)
     site = rep.get('site')
+    if rep.get('owner_swap'):
+        judge_owner_swap(ctx, text, auto)
+        return len(ctx.oracle_fails) == before
     if site is None:
         if 'paths' in rep:
             judge.pair('cross', by_path(a, rep['paths'][0]), by_path(a, rep['paths'][1]), rep)
